@@ -456,6 +456,13 @@ def check_shared_writes(ctx, w: World, om: OriginModel) -> None:
         if leak:
             fi_ = w.model.funcs[fq]
             ctx.bad("C17.1", f"{fq} can leave module-level state changed when an exception passes through it", f"{fi_.rel}:{fi_.node.lineno}", leak)
+    # ---- C17.2: a memo whose key rounds an argument while the stored value is computed from the argument as given (round 11) ------
+    from .shared_state import lossy_key_memo
+    for fq in sorted(w.reach):
+        lk = lossy_key_memo(w.model, fq)
+        if lk:
+            fi_ = w.model.funcs[fq]
+            ctx.bad("C17.2", f"memo in {fq}: the key rounds an argument, the remembered value does not", f"{fi_.rel}:{lk[0]}", lk[1], owners=[fq], object=f"{fq}.<memo>")
     # ---- C17.1 ---------------------------------------------------------------------------------------------
     by_obj: Dict[str, List[SharedWrite]] = {}
     for sw in bad:
